@@ -150,6 +150,9 @@ def warm_up():
             quiet(p.parse_args, ["--cfg", os.path.join(d, "bad.yaml")])
             quiet(p.parse_args, ["--pa", os.path.join(d, "nope.txt")])
             quiet(p.parse_args, ["--zz", "1"])
+        os.environ["C19X_PA"] = os.path.join(d, "t.txt")
+        quiet(build_parser(3, env_prefix="C19X", default_env=True).parse_args, ["--pb", os.path.join(d, "t.txt")])
+        del os.environ["C19X_PA"]
         for m in ("fr", "F", "dcc", "fc"):
             quiet(jsonargparse.Path, os.path.join(d, "nope", "x"), m)
     finally:
@@ -827,6 +830,70 @@ class Gen:
             top += self.level(0, wdir, direct, depth - 1)
         return {"id": self.pid, "wdir": wdir, "entry": entry, "top": top}
 
+    def add_duplicates(self, prog):
+        """assign one level-0 path key from TWO OR MORE sources in different directories (default config file, environment,
+        config files, command line) with the SAME relative spelling; the file exists next to the earlier sources and, half of
+        the time, not next to the last one.  Returns True if the last assignment was made to fail."""
+        rng = self.rng
+        key = rng.choice(["pa", "pa", "pb", "pb", "pc", "pd", "pl"])
+        wdir = prog["wdir"]
+        top = prog["top"]
+        head = 1 if prog["entry"] == "dcf" else 0
+
+        def strip(nodes):
+            return [n for n in nodes if n["key"] != key]
+
+        prog["top"] = top[:head] + strip(top[head:])
+        for n in prog["top"]:
+            if n["k"] == "sub" and n["key"] == "cfg":
+                n["items"] = strip(n["items"])
+        form = rng.choice(["%s", "%s", "./%s", "../%s"])
+        nel = rng.randint(1, 2) if key == "pl" else 1
+        names = [self.fresh("dd") if key == "pd" else self.fresh("data", ".txt") for _ in range(nel)]
+        rels = [form % x for x in names]
+        pattern = rng.choice([["cfg", "cfg"], ["cfg", "argv"], ["env", "cfg"], ["cfg", "cfg", "argv"], ["env", "cfg", "cfg"], ["cfg", "cfg", "cfg"]])
+        if head:
+            pattern = ["dcf"] + pattern[rng.randint(0, 1):]
+        dirs = [d for d in DIRS if d != wdir]
+        rng.shuffle(dirs)
+        used_targets = set()
+        made = []
+        for src in pattern:
+            if src in ("argv", "env"):
+                d = wdir
+            elif src == "dcf":
+                d = prog["top"][0]["fdir"]
+            else:
+                d = dirs.pop()
+            targets = [os.path.normpath(d + "/" + r) for r in rels]
+            if any(t in used_targets or t.startswith("..") for t in targets) or (src == "dcf" and d == wdir):
+                continue
+            used_targets.update(targets)
+            kind = {"pc": "new", "pd": "dir"}.get(key, "file")
+            if key == "pl":
+                node = {"k": "pathlist", "key": key, "els": [{"rel": r, "target": t} for r, t in zip(rels, targets)], "dir": d}
+            else:
+                node = {"k": "path", "key": key, "rel": rels[0], "target": targets[0], "kind": kind, "dir": d}
+            if src == "dcf":
+                prog["top"][0]["items"] = strip(prog["top"][0]["items"]) + [node]
+            elif src == "cfg":
+                f = d + "/" + self.fresh("c", ".yaml")
+                prog["top"].append({"k": "sub", "key": "cfg", "ref": self.spell(wdir, f), "file": f, "items": [node], "dir": wdir, "fdir": d})
+            else:
+                if src == "env":
+                    node["env"] = True
+                prog["top"].append(node)
+            made.append(node)
+        prog["dup"] = key
+        if len(made) >= 2 and made[-1].get("kind") != "new" and rng.random() < 0.5:
+            if made[-1]["k"] == "pathlist":
+                made[-1]["fail"] = "el-missing"
+                made[-1]["fail_el"] = rng.randrange(nel)
+            else:
+                made[-1]["fail"] = "missing"
+            return True
+        return False
+
     def obj_node(self, key, f, d, items, dirmode):
         """a Path OBJECT for file (or directory) f in directory d: created from a spelling relative to a remembered
         directory `rem` - mostly the very directory the file sits in - either with cwd=rem or while the process was in rem"""
@@ -936,7 +1003,7 @@ def list_stable(base, ref):
 def model_items(prog, nodes=None):
     base = "/FIX/g%d" % prog["id"]
     out = []
-    for n in (prog["top"] if nodes is None else nodes):
+    for n in (exec_top(prog) if nodes is None else nodes):
         if n.get("fail"):
             out.append({"fail": True})
         elif n["k"] == "path":
@@ -959,16 +1026,27 @@ def model_items(prog, nodes=None):
     return out
 
 
+def exec_top(prog):
+    """top-level nodes in the order the library applies them: default config file, environment, command line"""
+    top = prog["top"]
+    head = top[:1] if prog["entry"] in ("dcf", "dcf_obj") else []
+    rest = top[len(head):]
+    return head + [n for n in rest if n.get("env")] + [n for n in rest if not n.get("env")]
+
+
 def obj_abs(prog, n):
     base = "/FIX/g%d" % prog["id"]
     return n["ref"] if n["ref"].startswith("/") else base + "/" + n["rem"] + "/" + n["ref"]
 
 
 def expectation(prog):
-    """the generator's static knowledge: (ok, {triples}, unobservable refs, unstable list present)"""
+    """the generator's static knowledge, in execution order (aligned with the model's trace when nothing fails):
+    returns (ok, seq, unstable list present); seq = [(position, group, triple, observable)].  A namespace position
+    assigned several times (two config files, environment, command line) finally holds the LAST assignment, resolved
+    against ITS source's directory: `final_of(seq)`."""
     base = "/FIX/g%d" % prog["id"]
-    triples, hidden = set(), set()
-    flags = {"fail": False, "unstable": False}
+    seq = []
+    flags = {"fail": False, "unstable": False, "g": 0}
 
     def absdir(d):
         return base + "/" + d
@@ -977,41 +1055,60 @@ def expectation(prog):
         b = absdir(d)
         return (rel, rel if rel.startswith("/") else b + "/" + rel, b)
 
-    def walk(nodes):
+    def group():
+        flags["g"] += 1
+        return flags["g"]
+
+    def walk(nodes, prefix, top=False):
         for n in nodes:
             if n.get("fail"):
                 flags["fail"] = True
-            if n["k"] == "path":
-                triples.add(triple(n["rel"], n["dir"]))
-            elif n["k"] == "pathlist":
+            k = n["k"]
+            if k == "path":
+                seq.append((prefix + n["key"], group(), triple(n["rel"], n["dir"]), True))
+            elif k == "pathlist":
+                g = group()
                 for e in n["els"]:
-                    triples.add(triple(e["rel"], n["dir"]))
-            elif n["k"] == "list":
-                hidden.add(n["ref"])
+                    seq.append((prefix + n["key"], g, triple(e["rel"], n["dir"]), True))
+            elif k == "list":
                 if not n["yaml"] and not n.get("fail") and not list_stable(absdir(n["dir"]), n["ref"]):
                     flags["unstable"] = True
+                if n["yaml"]:
+                    seq.append((prefix + n["key"] + "/ref", group(), triple(n["ref"], n["dir"]), False))   # modelled as a sub; no record kept
+                g = group()
                 for e in n["els"]:
-                    triples.add(triple(e["rel"], n["fdir"]))
-            elif n["k"] == "obj":
+                    seq.append((prefix + n["key"], g, triple(e["rel"], n["fdir"]), True))
+            elif k == "obj":
                 a = obj_abs(prog, n)
                 if prog["entry"] == "dcf_obj":
-                    triples.add((a, a, absdir(prog["wdir"])))
+                    seq.append(("__default_config__", group(), (a, a, absdir(prog["wdir"])), True))
                 elif prog["entry"] == "apply_config_obj":
-                    triples.add((n["ref"], a, absdir(n["rem"])))
+                    seq.append(("cfg/%d" % group(), group(), (n["ref"], a, absdir(n["rem"])), True))
                 else:
-                    hidden.add(n["ref"])                           # parse_path / relative_path_context keep no record
-                walk(n["items"])
+                    seq.append(("obj", group(), (n["ref"], a, absdir(n["rem"])), False))   # parse_path / relative_path_context keep no record
+                walk(n["items"], prefix)
+            elif n["key"] == "cfg":
+                # parse_path does not record the file it was given; --cfg accumulates every file
+                seq.append(("cfg/%d" % group(), group(), triple(n["ref"], n["dir"]), not (top and prog["entry"] == "parse_path")))
+                walk(n["items"], prefix)
             else:
-                triples.add(triple(n["ref"], n["dir"]))
-                walk(n["items"])
+                seq.append((prefix + n["key"] + ".__path__", group(), triple(n["ref"], n["dir"]), True))
+                walk(n["items"], prefix + n["key"] + ".")
 
-    walk(prog["top"])
-    if prog["entry"] == "parse_path" and prog["top"] and prog["top"][0]["k"] == "sub":
-        # parse_path does not record the path of the file it was given
-        n = prog["top"][0]
-        hidden.add(n["ref"])
-        triples.discard(triple(n["ref"], n["dir"]))
-    return (not flags["fail"]), triples, hidden, flags["unstable"]
+    walk(exec_top(prog), "", top=True)
+    return (not flags["fail"]), seq, flags["unstable"]
+
+
+def final_of(seq, entries=None):
+    """the observable values a namespace finally holds: for every position the entries of its last assignment"""
+    last = {}
+    for pos, g, _, _ in seq:
+        last[pos] = g
+    out = set()
+    for i, (pos, g, t, obs) in enumerate(seq):
+        if obs and last[pos] == g:
+            out.add(t if entries is None else entries[i])
+    return out
 
 
 def yaml_str(s):
@@ -1124,15 +1221,22 @@ def materialise(prog, root):
     elif prog["entry"] == "dcf":
         kw["default_config_files"] = [real(top[0]["ref"])]
         top = top[1:]
+    env = {}
     for n in top:
         if n["k"] == "pathlist":
-            argv += ["--" + n["key"], "[" + ", ".join(yaml_str(real(e["rel"])) for e in n["els"]) + "]"]
+            v = "[" + ", ".join(yaml_str(real(e["rel"])) for e in n["els"]) + "]"
         elif n["k"] == "path":
-            v = value_of(n)
-            argv += ["--" + n["key"], json.loads(v)]
+            v = json.loads(value_of(n))
         else:
-            argv += ["--" + n["key"], real(n["ref"])]
-    return os.path.join(base, prog["wdir"]), argv, kw, call
+            v = real(n["ref"])
+        if n.get("env"):
+            env["C19X_" + n["key"].upper()] = v
+        else:
+            argv += ["--" + n["key"], v]
+    if env:
+        kw["env_prefix"] = "C19X"
+        kw["default_env"] = True
+    return os.path.join(base, prog["wdir"]), argv, kw, call, env
 
 
 def flatten_paths(cfg):
@@ -1176,9 +1280,12 @@ def load_child(root, progs):
 
     out = []
     for prog in progs:
-        W, argv, kw, call = materialise(prog, root)
+        W, argv, kw, call, env = materialise(prog, root)
         os.chdir(W)
         res = {}
+        for k in [k for k in os.environ if k.startswith("C19X_")]:
+            del os.environ[k]
+        os.environ.update(env)
         inside = None
         obj = make_obj(call[1], W) if call[0] in ("parse_path_obj", "apply_config_obj", "ctx") else None
         if kw.get("default_config_files") and isinstance(kw["default_config_files"][0], dict):
@@ -1219,7 +1326,8 @@ def load_child(root, progs):
 
 def judge_load(ctx, prog, real, model):
     """returns (correspondence problem | None, oracle problem | None, known finding id | None)"""
-    exp_ok, triples, hidden, unstable = expectation(prog)
+    exp_ok, seq, unstable = expectation(prog)
+    triples = final_of(seq)
     W = "/FIX/g%d/%s" % (prog["id"], prog["wdir"])
     corr = None
     if model is not None:
@@ -1227,8 +1335,11 @@ def judge_load(ctx, prog, real, model):
             corr = "model says %s, parse %s (%s)" % ("ok" if model["ok"] else "fail", "succeeds" if real["ok"] else "fails", real.get("exc"))
         elif model["cwd"] != real["cwd_after"] or model["cpd"] != real["cpd_after"]:
             corr = "state after: model cwd=%s cpd=%s, real cwd=%s cpd=%s" % (model["cwd"], model["cpd"], real["cwd_after"], real["cpd_after"])
+        elif real["ok"] and len(model["trace"]) != len(seq):
+            corr = "model trace has %d entries, the program %d" % (len(model["trace"]), len(seq))
         elif real["ok"]:
-            mt = {(t["rel"], t["abs"], t["base"]) for t in model["trace"] if t["rel"] not in hidden}
+            # the namespace holds the last assignment of every position: the model resolves each assignment on its own
+            mt = final_of(seq, [(t["rel"], t["abs"], t["base"]) for t in model["trace"]])
             rt = {tuple(t) for t in real["paths"]}
             if mt != rt:
                 corr = "resolved paths differ: only model %s, only real %s" % (sorted(mt - rt)[:3], sorted(rt - mt)[:3])
@@ -1249,7 +1360,7 @@ def judge_load(ctx, prog, real, model):
     elif real["ok"]:
         rt = {tuple(t) for t in real["paths"]}
         if rt != triples:
-            orc = "path values are not resolved against the directory of their config file: unexpected %s, missing %s" % (sorted(rt - triples)[:3], sorted(triples - rt)[:3])
+            orc = "path values are not resolved against the directory of their (last) source: unexpected %s, missing %s" % (sorted(rt - triples)[:3], sorted(triples - rt)[:3])
     return corr, orc, known
 
 
@@ -1314,7 +1425,10 @@ def load_stage(ctx: Ctx, nprog):
     for i in range(nprog):
         g = Gen(rng, 1000 + i)
         p = dedupe_keys(g.program())
-        if rng.random() < 0.3:
+        failed = False
+        if p["entry"] in ("args", "dcf") and rng.random() < 0.4:
+            failed = g.add_duplicates(p)
+        if not failed and rng.random() < 0.3:
             inject_failure(rng, p)
         progs.append(p)
     for i, p in enumerate(progs):
@@ -1328,6 +1442,8 @@ def load_stage(ctx: Ctx, nprog):
         nodes = list(all_nodes(p["top"]))
         depth = prog_depth(p["top"])
         ctx.hist("load_entry", p["entry"])
+        if p.get("dup"):
+            ctx.hist("load_duplicate_key", p["dup"])
         ctx.hist("load_depth", depth)
         ctx.hist("load_outcome", "ok" if real["ok"] else "fail:" + str(real.get("exc")))
         for n in nodes:
@@ -1406,6 +1522,7 @@ def run(ctx: Ctx):
         "URL/fsspec paths, Windows and skip_check are outside; flags u and s only permit",
         "directories holding config files are not symlinks (os.getcwd() after chdir equals normpath of the joined path)",
         "list files: nothing else lives where the second resolution of a relative spelling points",
+        "path-typed arguments have no Path-object default (the `val == default` shortcut of adapt_typehints is the open finding C19-default-same-spelling)",
     ]
     ctx.lean_build(extractors=["path_flags"])
     warm_up()
@@ -1455,6 +1572,13 @@ def replay_open_findings(ctx):
                 ctx.known(f["id"], f["description"])
             else:
                 ctx.stale_findings.append(f["id"])
+        elif w.get("kind") == "default":
+            r = in_child(default_witness_child, make_root(), w)
+            ctx.count()
+            if r["deviates"]:
+                ctx.known(f["id"], f["description"][:260])
+            else:
+                ctx.stale_findings.append(f["id"])
         elif w.get("kind") == "load":
             import copy
 
@@ -1466,6 +1590,32 @@ def replay_open_findings(ctx):
                 ctx.known(f["id"], f["description"])
             else:
                 ctx.stale_findings.append(f["id"])
+
+
+def default_witness_child(root, w):
+    """default = Path_fr(spelling) created in one directory, the same spelling given from a directory where the file is missing"""
+    from typing import Optional
+
+    from jsonargparse import ArgumentParser, Path
+    from jsonargparse.typing import Path_fr
+
+    for d in (w["default_dir"], w["wdir"]):
+        os.makedirs(os.path.join(root, d))
+    with open(os.path.join(root, w["default_dir"], w["spelling"]), "w") as f:
+        f.write("x\n")
+    os.chdir(os.path.join(root, w["default_dir"]))
+    default = Path_fr(w["spelling"])
+    os.chdir(os.path.join(root, w["wdir"]))
+    out = []
+    for tp in (Path_fr, Optional[Path_fr]):
+        parser = ArgumentParser(exit_on_error=False)
+        parser.add_argument("--file", type=tp, default=default)
+        try:
+            v = parser.parse_args(["--file", w["spelling"]]).file
+            out.append("accepted as " + type(v).__name__ if not isinstance(v, Path) else "accepted as Path at " + v.absolute.replace(root, "/FIX"))
+        except Exception as ex:  # noqa: BLE001
+            out.append("rejected: " + type(ex).__name__)
+    return {"outcomes": out, "deviates": any(not o.startswith("rejected") for o in out)}
 
 
 def path_witness_child(root, w):
@@ -1523,6 +1673,10 @@ def replay(ctx: Ctx, body):
         print("model:", json.dumps(models[0]))
         print("oracle:", orc or known or "agrees", "| correspondence:", corr or "agrees")
         return 1 if (orc or known) else 0
+    if rp.get("kind") == "default":
+        r = in_child(default_witness_child, make_root(), rp)
+        print(r)
+        return 1 if r["deviates"] else 0
     if rp.get("kind") == "mode":
         from jsonargparse import Path
 
